@@ -28,7 +28,8 @@ EXTENDS Rat, Sequences, FiniteSets, TLC, Json, CSV, IOUtils
 
 CONSTANTS
     UnitW,              \* watts per spec power unit (only the 0.1 W threshold depends on it)
-    Mode,               \* "dist": distribution inputs; "bounds": configurations only (C17); "trace"
+    Mode,               \* "dist": distribution inputs; "bounds": configurations only (C17);
+                        \* "reject": requests the advertised bounds do NOT admit (admission check); "trace"
     NGroups,            \* set of group counts
     Caps, Socs, SocLo, SocHi, BatBnds, InvBnds,     \* alphabet of the first battery / inverter of a group
     Caps2, Socs2, BatBnds2, InvBnds2,               \* alphabet of further batteries / inverters
@@ -169,7 +170,9 @@ PrepareOf(i) ==
         n == Len(i.groups)
         S == TLCEval([g \in 1..n |-> Side(i.groups[g], supply)])
         tot == SumS([g \in 1..n |-> S[g].cap])
-        ratio == TLCEval([g \in 1..n |-> RMul(Norm(S[g].cap, tot), RPow(S[g].avail, i.exp))])
+        \* pow(0.0, 0) is 1.0, but a battery without available SoC is never used (soc_factor 0)
+        ratio == TLCEval([g \in 1..n |-> RMul(Norm(S[g].cap, tot),
+                                               IF RIsZero(S[g].avail) THEN Zero ELSE RPow(S[g].avail, i.exp))])
         mp == TLCEval([g \in 1..n |-> MinPowerOf(S[g])])
         ib == TLCEval([g \in 1..n |-> InclBoundOf(S[g])])
         \* sort(key=(min_power, ratio), reverse=True): stable, descending
@@ -179,58 +182,59 @@ PrepareOf(i) ==
                      IN [k \in 1..(Len(s) + 1) |-> IF k < pos THEN s[k] ELSE IF k = pos THEN x ELSE s[k - 1]]
         Sorted[k \in 0..n] == IF k = 0 THEN <<>> ELSE Ins(Sorted[k - 1], k)
         sumr == RSumS(ratio)
-    IN [stage |-> "prepared", supply |-> supply, P |-> R(Abs(i.power)), n |-> n, S |-> S,
+    IN [stage |-> "prepared", supply |-> supply, P |-> R(Abs(i.power)), n |-> n, S |-> S, exp |-> i.exp,
         ratio |-> ratio, mp |-> mp, ib |-> ib, sumr |-> sumr, order |-> Sorted[n],
         allzero |-> RIsZero(sumr),
         res |-> Zero, dist |-> Zero, used |-> Zero, rr |-> sumr,
         exc |-> <<>>, defs |-> <<>>, out |-> <<>>, rem |-> Zero,
-        d |-> <<>>, zh |-> {}, unc |-> FALSE, splitlost |-> FALSE, splittie |-> FALSE]
+        d |-> <<>>, zh |-> {}, unc |-> FALSE, partial |-> 0, splitlost |-> FALSE, splittie |-> FALSE]
 
-\* ---- Reserve: lines 502-539
+\* ---- Reserve: the reservation loop of _distribute_power
 RECURSIVE ReserveLoop(_, _)
 ReserveLoop(k, st) ==
     IF k > Len(st.order) THEN st ELSE
     LET g == st.order[k] IN
-    IF RIsZero(st.rr)
-    THEN ReserveLoop(k + 1, [st EXCEPT !.out = Append(@, <<g, <<Zero, Zero>>>>)])
+    IF RIsZero(st.rr) \/ RIsZero(st.ratio[g])
+    THEN ReserveLoop(k + 1, [st EXCEPT !.out = Append(@, <<g, <<Zero, Zero>>>>),
+                                      \* legacy cause: the old loop handed min_power to this pair
+                                      !.zh = IF ~RIsZero(st.rr) /\ st.mp[g] > 0 THEN @ \cup {g} ELSE @])
     ELSE LET ptd == RSub(st.P, st.res)
              calc == RDiv(RMul(ptd, st.ratio[g]), st.rr)
              mp == R(st.mp[g])
              ib == R(st.ib[g])
              used2 == RAdd(st.used, st.ratio[g])
              st2 == [st EXCEPT !.res = RAdd(@, RMax(calc, mp)), !.used = used2, !.rr = RSub(st.sumr, used2),
-                               !.dist = RAdd(@, mp), !.out = Append(@, <<g, <<ib, mp>>>>),
-                               !.zh = IF RIsZero(st.ratio[g]) /\ st.mp[g] > 0 THEN @ \cup {g} ELSE @]
+                               !.dist = RAdd(@, mp), !.out = Append(@, <<g, <<ib, mp>>>>)]
              st3 == IF RLt(ib, calc) THEN [st2 EXCEPT !.exc = Append(@, <<g, RSub(ib, mp)>>)]
                     ELSE IF RLt(calc, mp) THEN [st2 EXCEPT !.defs = Append(@, <<g, RSub(calc, mp)>>)]
                     ELSE [st2 EXCEPT !.exc = Append(@, <<g, RSub(calc, mp)>>)]
          IN ReserveLoop(k + 1, st3)
 ReserveOf(st) == [ReserveLoop(1, st) EXCEPT !.stage = "reserved"]
 
-\* ---- Cover: lines 541-564
+\* ---- Cover: deficits are covered from the largest excess (first maximal entry), possibly from
+\* several donors one after the other (partial cover); distributed_power is not touched
 MaxIdx(dd) == CHOOSE i \in 1..Len(dd) : /\ \A j \in 1..Len(dd) : RLe(dd[j][2], dd[i][2])
                                          /\ \A m \in 1..(i - 1) : RLt(dd[m][2], dd[i][2])
-RECURSIVE CoverLoop(_, _)
-CoverLoop(deficit, exc) ==
-    IF ~RIsNeg(deficit) THEN <<deficit, exc>>
-    ELSE IF Len(exc) = 0 THEN <<deficit, exc>>
+RECURSIVE CoverLoop(_, _, _)          \* result <<deficit left, excess, number of partial covers>>
+CoverLoop(deficit, exc, np) ==
+    IF ~RIsNeg(deficit) THEN <<deficit, exc, np>>
+    ELSE IF Len(exc) = 0 THEN <<deficit, exc, np>>
     ELSE LET i == MaxIdx(exc)
              lp == exc[i][2]
-         IN IF ~RIsPos(lp) THEN <<deficit, exc>>
-            ELSE IF RLe(RNeg(deficit), lp) THEN <<Zero, [exc EXCEPT ![i] = <<@[1], RAdd(lp, deficit)>>]>>
-            ELSE CoverLoop(RAdd(deficit, lp), [exc EXCEPT ![i] = <<@[1], Zero>>])
+         IN IF ~RIsPos(lp) THEN <<deficit, exc, np>>
+            ELSE IF RLe(RNeg(deficit), lp) THEN <<Zero, [exc EXCEPT ![i] = <<@[1], RAdd(lp, deficit)>>], np>>
+            ELSE CoverLoop(RAdd(deficit, lp), [exc EXCEPT ![i] = <<@[1], Zero>>], np + 1)
 RECURSIVE DeficitLoop(_, _)
 DeficitLoop(k, st) ==
     IF k > Len(st.defs) THEN st ELSE
-    LET cv == CoverLoop(st.defs[k][2], st.exc)
+    LET cv == CoverLoop(st.defs[k][2], st.exc, 0)
         deficit == cv[1]
         lo == RSub(st.P, st.dist)
         big == RLt(deficit, RNeg(Tenth))
-        dist2 == IF ~big THEN st.dist
-                 ELSE IF RLt(RNeg(deficit), lo) THEN RAdd(st.dist, deficit)
-                 ELSE IF RIsPos(lo) THEN RAdd(st.dist, lo)
-                 ELSE st.dist
-    IN DeficitLoop(k + 1, [st EXCEPT !.exc = cv[2], !.defs[k] = <<@[1], deficit>>, !.dist = dist2,
+    IN DeficitLoop(k + 1, [st EXCEPT !.exc = cv[2], !.defs[k] = <<@[1], deficit>>,
+                                     !.partial = IF cv[3] > @ THEN cv[3] ELSE @,
+                                     \* legacy cause: here the old code booked the uncovered deficit
+                                     \* (or the left-over) against distributed_power
                                      !.unc = @ \/ (big /\ RIsPos(lo))])
 CoverOf(st) == [DeficitLoop(1, st) EXCEPT !.stage = "covered"]
 
@@ -270,6 +274,7 @@ SplitOf(st) ==
                  IF Len(st.S[g].iex) = 1 THEN <<<<GetPower(st.out, g)>>, Zero, FALSE>>
                  ELSE SplitLoop(st.S[g], 1, GetPower(st.out, g), <<>>, FALSE)])
     IN [st EXCEPT !.stage = "split", !.d = [g \in 1..st.n |-> sp[g][1]],
+                  !.rem = RAdd(@, RSumS([g \in 1..st.n |-> sp[g][2]])),
                   !.splitlost = \E g \in 1..st.n : ~RIsZero(sp[g][2]),
                   !.splittie = \E g \in 1..st.n : sp[g][3]]
 
@@ -295,20 +300,24 @@ OutOf(st) == [d |-> [g \in 1..st.n |-> [j \in 1..Len(st.d[g]) |-> RFix(st.d[g][j
               rem |-> RFix(st.rem, SCd)]
 
 ----------------------------------------------------------------------------
-(* Named deviations: causes, as predicates over the algorithm's own           *)
-(* intermediate values, of behaviour of the unchanged code that breaks a      *)
-(* clause.  An invariant reads  Clause \/ Dev_x  so anything else still fires. *)
+(* Named causes, as predicates over the algorithm's own intermediate values.  *)
+(* Dev_SplitRemainderBelowInverterExcl is a deviation of the current code      *)
+(* (known finding KF-C02-3): an invariant reads  Clause \/ Dev_x .            *)
+(* The three "legacy" predicates name defects that were repaired in the code   *)
+(* (commits 0b44485, 1552f1c, 374512d); they excuse nothing any more, but a    *)
+(* failing record carries their names when the regime of an old defect is met, *)
+(* so a returning old behaviour is recognised at once.                         *)
 
-\* the reservation loop hands min_power to a group whose availability ratio is zero
+\* legacy: the reservation loop would hand min_power to a group whose availability ratio is zero
 Dev_ZeroHeadroomGetsMinPower(st) == st.zh # {}
-\* pow(0, 0) = 1: with exponent 0 a group without headroom keeps a non-zero ratio
+\* legacy: pow(0, 0) = 1 would give a group without headroom a non-zero ratio (exponent 0)
 Dev_ExponentZeroIgnoresHeadroom(st) ==
-    ~st.allzero /\ \E g \in 1..st.n : RIsZero(st.S[g].avail) /\ ~RIsZero(st.ratio[g])
-\* a deficit (min_power above the proportional share) that no excess could cover is booked
-\* against distributed_power although the min_power allocation stays (lines 559-564)
+    st.exp = 0 /\ \E g \in 1..st.n : RIsZero(st.S[g].avail)
+\* legacy: a deficit no excess could cover would be booked against distributed_power
 Dev_UncoveredDeficitWrittenOff(st) == st.unc
-\* the split over the inverters of one group leaves power unassigned because what remains is
-\* below the next inverter's exclusion bound (or exactly on it: decided by float rounding)
+\* the split over the inverters of one group cannot place what remains because it is below the
+\* next inverter's exclusion bound (or exactly on it: decided by float rounding); the rest is
+\* reported as remaining power, but the group total may then lie inside the battery's exclusion zone
 Dev_SplitRemainderBelowInverterExcl(st) == st.splitlost \/ st.splittie
 
 DevNames(st) ==
@@ -318,11 +327,7 @@ DevNames(st) ==
     (IF Dev_SplitRemainderBelowInverterExcl(st) THEN {"Dev_SplitRemainderBelowInverterExcl"} ELSE {})
 \* which deviations can explain which clause
 Excuses(clause) ==
-    IF clause \in {"Conservation", "ReportedIsCommanded"}
-      THEN {"Dev_UncoveredDeficitWrittenOff", "Dev_SplitRemainderBelowInverterExcl"}
-    ELSE IF clause = "GroupInBounds" THEN {"Dev_SplitRemainderBelowInverterExcl"}
-    ELSE IF clause = "NoHeadroomZero" THEN {"Dev_ZeroHeadroomGetsMinPower", "Dev_ExponentZeroIgnoresHeadroom"}
-    ELSE {}
+    IF clause = "GroupInBounds" THEN {"Dev_SplitRemainderBelowInverterExcl"} ELSE {}
 
 ----------------------------------------------------------------------------
 (* Property clauses, written directly over the input data (not over the      *)
@@ -389,6 +394,18 @@ Requests(groups) ==
         cand == Mags \cup {-m : m \in Mags} \cup {a.il, a.el, a.eu, a.iu}
     IN {p \in cand : p # 0 /\ Admitted(p, a)}
 
+\* requests the pool does not advertise: strictly inside the advertised exclusion zone, or just
+\* beyond the advertised inclusion bounds
+InsideAdvZone(p, a) == a.el < p /\ p < a.eu
+NonAdmitted(groups) ==
+    LET a == Advertised(groups) IN
+    {p \in (a.il - 1)..(a.iu + 1) : p # 0 /\ (InsideAdvZone(p, a) \/ p < a.il \/ p > a.iu)}
+\* the enforced exclusion zone (max of sums) can be narrower than the advertised one (sum of max):
+\* a request in between is not advertised but passes _check_request
+InGap(p, groups) ==
+    LET a == Advertised(groups)  e == Enforced(groups) IN
+    InsideAdvZone(p, a) /\ ~(e.el < p /\ p < e.eu)
+
 EmitOn == "OUT_FILE" \in DOMAIN IOEnv
 Emit(v) == IF EmitOn THEN CSVWrite("%1$s", <<ToJson(v)>>, IOEnv.OUT_FILE) ELSE TRUE
 NoInp == [groups |-> <<>>, power |-> 0, exp |-> 0]
@@ -404,6 +421,9 @@ Install ==
          LET gs == [k \in 1..n |-> IF k = 1 THEN inp.groups[1] ELSE rest[k]] IN
          IF Mode = "bounds"
          THEN inp' = [inp EXCEPT !.groups = gs] /\ Emit([g |-> gs, hp |-> Probes(gs)])
+         ELSE IF Mode = "reject"
+         THEN \E p \in NonAdmitted(gs) : /\ inp' = [inp EXCEPT !.groups = gs, !.power = p]
+                                         /\ Emit([g |-> gs, p |-> p, e |-> inp.exp])
          ELSE \E p \in Requests(gs) : inp' = [inp EXCEPT !.groups = gs, !.power = p]
     /\ pc' = "installed" /\ UNCHANGED w
 
@@ -416,7 +436,7 @@ Greedy == pc = "excess" /\ w' = GreedyOf(w) /\ pc' = "greedy" /\ UNCHANGED inp
 Split == pc = "greedy" /\ w' = SplitOf(w) /\ pc' = "split" /\ UNCHANGED inp
 Report ==
     /\ pc = "split" /\ w' = ReportOf(w) /\ pc' = "done" /\ UNCHANGED inp
-    /\ Emit([g |-> inp.groups, p |-> inp.power, e |-> inp.exp, dev |-> DevNames(w'), az |-> w.allzero])
+    /\ Emit([g |-> inp.groups, p |-> inp.power, e |-> inp.exp, dev |-> DevNames(w'), az |-> w.allzero, np |-> w'.partial])
 
 Next == Install \/ Prepare \/ AllZero \/ Reserve \/ Cover \/ AddExcess \/ Greedy \/ Split \/ Report
 
@@ -450,6 +470,14 @@ AdmittedIsAcceptedInv ==
         /\ InAdvertised(2 * inp.power, a) => Accepts(2 * inp.power, e, FALSE)
         /\ Abs(inp.power) >= SumMinPower(inp.groups, inp.power < 0)
 
+\* the admission check on requests that are not advertised: strictly inside the enforced exclusion
+\* zone -> OutOfBounds in both modes; outside the inclusion bounds -> OutOfBounds without adjust_power
+NonAdmittedInv ==
+    (pc = "installed" /\ Mode = "reject") =>
+        LET e == Enforced(inp.groups)  p == inp.power IN
+        /\ (e.el < p /\ p < e.eu) => (~Accepts(2 * p, e, TRUE) /\ ~Accepts(2 * p, e, FALSE))
+        /\ (p < e.il \/ p > e.iu) => ~Accepts(2 * p, e, FALSE)
+
 (* design-level invariants of the intermediate stages *)
 AllocSum(st) == RSumS([k \in 1..Len(st.out) |-> st.out[k][2][2]])
 \* the order is a permutation of the groups, descending in (min_power, ratio)
@@ -465,20 +493,18 @@ ReserveInv == pc = "reserved" =>
     /\ \A k \in 1..Len(w.exc) : ~RIsNeg(w.exc[k][2])
     /\ \A k \in 1..Len(w.defs) : RIsNeg(w.defs[k][2])
     /\ RLe(w.dist, w.P)               \* admitted requests cover the sum of the minimum powers
-\* the book-keeping variable equals the power really allocated -- unless the left-over accounting ran
-BookkeepingInv == pc \in {"covered", "excess"} =>
-    \/ AllocSum(w) = w.dist
-    \/ Dev_UncoveredDeficitWrittenOff(w)
+\* the book-keeping variable equals the power really allocated
+BookkeepingInv == pc \in {"covered", "excess"} => AllocSum(w) = w.dist
 \* no allocation above the group's upper bound, none negative
 UpperBoundInv == pc \in {"reserved", "covered", "excess", "greedy"} =>
     \A k \in 1..Len(w.out) : ~RIsNeg(w.out[k][2][2]) /\ RLe(w.out[k][2][2], w.out[k][2][1])
-\* after the greedy top-up: allocated + remainder = request, unless the accounting deviation fired
-GreedyInv == pc = "greedy" =>
-    \/ RAdd(AllocSum(w), w.rem) = w.P
-    \/ Dev_UncoveredDeficitWrittenOff(w)
-\* the split hands out exactly the group's allocation unless it got stuck below an exclusion bound
+\* after the greedy top-up: allocated + remainder = request
+GreedyInv == pc = "greedy" => RAdd(AllocSum(w), w.rem) = w.P /\ ~RIsNeg(w.rem)
+\* the split hands out exactly the group's allocation unless it got stuck below an exclusion bound,
+\* and what it could not place is in the remainder
 SplitInv == (pc = "split" /\ ~w.allzero) =>
-    \A g \in 1..w.n : RSumS(w.d[g]) = GetPower(w.out, g) \/ w.splitlost
+    /\ \A g \in 1..w.n : RSumS(w.d[g]) = GetPower(w.out, g) \/ w.splitlost
+    /\ RAdd(RSumS([g \in 1..w.n |-> RSumS(w.d[g])]), w.rem) = w.P
 
 TypeOK == pc \in {"init", "installed", "prepared", "reserved", "covered", "excess", "greedy", "split", "done"}
 =============================================================================
